@@ -30,6 +30,10 @@ pub struct RustDocument {
     /// components the importing documents have read so far (e.g. from a file that this file imports
     /// as well): references may point to them, but they are written by the document that owns them
     pub(crate) known_nodes: Vec<Rc<RustNode>>,
+    /// components that were read ahead of their turn to resolve a forward reference; kept so that a
+    /// component which many others refer to is read once, not once per reference (and again for
+    /// every reference to each of those)
+    pub(crate) resolved_ahead: Vec<Rc<RustNode>>,
 }
 
 impl RustDocument {
@@ -80,6 +84,7 @@ impl RustDocument {
             resolving: Vec::new(),
             default_namespace: None,
             known_nodes: Vec::new(),
+            resolved_ahead: Vec::new(),
         }
     }
 
@@ -188,7 +193,8 @@ impl RustDocument {
         namespace: Option<&Namespace>,
         kind: Option<ComponentKind>,
     ) -> Option<Rc<RustNode>> {
-        let rust_node = self.nodes.iter().chain(&self.known_nodes).find(|node| {
+        let mut read_so_far = self.nodes.iter().chain(&self.known_nodes).chain(&self.resolved_ahead);
+        let rust_node = read_so_far.find(|node| {
             node.rust_type.xml_name().is_some_and(|n| n == xml_name)
                 && node.in_namespace.as_deref() == namespace
                 && kind.is_none_or(|k| k.matches_rust_type(&node.rust_type))
@@ -206,7 +212,9 @@ impl RustDocument {
         self.resolving.push(xml_name.to_string());
         let alt_node = try_to_find_node_by_xml_name_in_xml_doc(start_node, xml_name, namespace, kind, self);
         self.resolving.pop();
-        Some(alt_node.ok()?.into())
+        let alt_node: Rc<RustNode> = alt_node.ok()?.into();
+        self.resolved_ahead.push(alt_node.clone());
+        Some(alt_node)
     }
 
     pub fn find_message_by_xml_name(&self, xml_name: &str, _namespace: Option<&Namespace>) -> Option<&Rc<SoapMessage>> {
